@@ -526,12 +526,21 @@ func zeroKnownOperands(p *Program, fn *ssa.Function) (int, []Finding) {
 					continue
 				}
 				cl := calleeOf(&c2.Call)
+				operands := c2.Call.Args
 				switch cl.Name {
 				case "Mul", "Square", "Inverse", "Div", "MulByNonResidue", "MulAssign":
+					if len(operands) > 0 {
+						operands = operands[1:]
+					}
+				case "LexicographicallyLargest", "Legendre":
+					// predicates of their receiver: constant on zero
+					if len(operands) != 1 {
+						continue
+					}
 				default:
 					continue
 				}
-				for _, a := range c2.Call.Args[1:] {
+				for _, a := range operands {
 					same := a == tested
 					if !same {
 						if _, isAlloc := stripConv(tested).(*ssa.Alloc); !isAlloc && descValue(a, 0) == key {
@@ -1524,3 +1533,258 @@ func chunkRemainderDropped(p *Program, fn *ssa.Function) (int, []Finding) {
 }
 
 func sameValueOrConstMinus1(a, b ssa.Value) bool { return false }
+
+// ---------------------------------------------------------------------------------------------
+// NARROW-BEFORE-REDUCE: `T(v) % m` with T narrower than the type of v reduces v mod 2^bits first:
+// the residue is wrong for every v >= 2^bits unless m divides 2^bits. Accepted: a source already
+// known to fit (a remainder, a mask, a right shift leaving at most `bits` bits, a constant, a
+// narrower source widened before).
+// ---------------------------------------------------------------------------------------------
+func narrowBeforeReduce(p *Program, fn *ssa.Function) (int, []Finding) {
+	n := 0
+	var hits []Finding
+	bitsOf := func(t types.Type) int {
+		b, ok := t.Underlying().(*types.Basic)
+		if !ok || b.Info()&types.IsInteger == 0 {
+			return 0
+		}
+		switch b.Kind() {
+		case types.Int8, types.Uint8:
+			return 8
+		case types.Int16, types.Uint16:
+			return 16
+		case types.Int32, types.Uint32:
+			return 32
+		}
+		return 64
+	}
+	var fits func(v ssa.Value, bits int, d int) bool
+	fits = func(v ssa.Value, bits int, d int) bool {
+		if d > 6 {
+			return false
+		}
+		if k, ok := constInt(v); ok {
+			return bits >= 63 || (k >= 0 && k < int64(1)<<uint(bits))
+		}
+		if bw := bitsOf(v.Type()); bw != 0 && bw <= bits {
+			return true
+		}
+		switch x := v.(type) {
+		case *ssa.Convert:
+			return fits(x.X, bits, d+1)
+		case *ssa.BinOp:
+			switch x.Op {
+			case token.REM:
+				if k, ok := constInt(x.Y); ok && k > 0 && (bits >= 63 || k <= int64(1)<<uint(bits)) {
+					return true
+				}
+				return fits(x.Y, bits, d+1)
+			case token.AND:
+				return fits(x.X, bits, d+1) || fits(x.Y, bits, d+1)
+			case token.SHR:
+				if k, ok := constInt(x.Y); ok && int(k) >= bitsOf(x.X.Type())-bits {
+					return true
+				}
+			}
+		case *ssa.Phi:
+			for _, e := range x.Edges {
+				if !fits(e, bits, d+1) {
+					return false
+				}
+			}
+			return true
+		}
+		return false
+	}
+	for _, b := range fn.Blocks {
+		for _, in := range b.Instrs {
+			r, ok := in.(*ssa.BinOp)
+			if !ok || r.Op != token.REM {
+				continue
+			}
+			if bitsOf(r.Type()) == 0 {
+				continue
+			}
+			n++ // every integer remainder is looked at
+			cv, ok := r.X.(*ssa.Convert)
+			if !ok {
+				continue
+			}
+			to, from := bitsOf(cv.Type()), bitsOf(cv.X.Type())
+			if to == 0 || from == 0 || to >= from {
+				continue
+			}
+			// a power-of-two modulus dividing 2^bits commutes with the truncation
+			if k, ok := constInt(r.Y); ok && k > 0 && k&(k-1) == 0 {
+				continue
+			}
+			if fits(cv.X, to, 0) {
+				continue
+			}
+			hits = append(hits, Finding{fn, r.Pos(), "narrowed-before-reduction(" + descValue(cv.X, 0) + ")",
+				fmt.Sprintf("%s: the %d-bit value %s is converted to %d bits and reduced afterwards: for values of 2^%d and above the residue is that of the truncated value, not of the value", funcKey(fn), from, descValue(cv.X, 0), to, to)})
+		}
+	}
+	return n, hits
+}
+
+// ---------------------------------------------------------------------------------------------
+// ELEMENT-ALIAS: a function that takes a pointer a *T and a slice s []T (or is a method of a
+// slice-of-T type) and writes elements of s must not read *a after such a write: a may point at
+// an element of s (vector.ScalarMul(v, &v[0]); MulAccE4(&res[0], scale, res)). The library's
+// idiom is a snapshot `aCopy := *a` taken before the first write; code paths of the same operation
+// that differ in taking it give different results (assembly loads its scalar operand once).
+// ---------------------------------------------------------------------------------------------
+func elementAliasHazard(p *Program, fn *ssa.Function) (int, []Finding) {
+	if len(fn.Blocks) == 0 {
+		return 0, nil
+	}
+	elemOfSlice := func(t types.Type) types.Type {
+		if pt, ok := t.Underlying().(*types.Pointer); ok {
+			t = pt.Elem()
+		}
+		if st, ok := t.Underlying().(*types.Slice); ok {
+			return st.Elem()
+		}
+		return nil
+	}
+	n := 0
+	var hits []Finding
+	for _, a := range fn.Params {
+		pt, ok := a.Type().Underlying().(*types.Pointer)
+		if !ok {
+			continue
+		}
+		if _, isStruct := pt.Elem().Underlying().(*types.Struct); !isStruct {
+			if _, isArr := pt.Elem().Underlying().(*types.Array); !isArr {
+				continue
+			}
+		}
+		for _, s := range fn.Params {
+			if s == a {
+				continue
+			}
+			et := elemOfSlice(s.Type())
+			if et == nil || !types.Identical(et, pt.Elem()) {
+				continue
+			}
+			n++
+			// addresses of elements of s
+			elem := map[ssa.Value]bool{}
+			base := map[ssa.Value]bool{s: true}
+			for changed := true; changed; {
+				changed = false
+				for _, b := range fn.Blocks {
+					for _, in := range b.Instrs {
+						v, isVal := in.(ssa.Value)
+						if !isVal || elem[v] || base[v] {
+							continue
+						}
+						switch x := in.(type) {
+						case *ssa.UnOp:
+							if x.Op == token.MUL && base[x.X] {
+								if _, isSl := x.Type().Underlying().(*types.Slice); isSl {
+									base[v] = true
+									changed = true
+								}
+							}
+						case *ssa.Slice:
+							if base[x.X] {
+								base[v] = true
+								changed = true
+							}
+						case *ssa.ChangeType:
+							if base[x.X] {
+								base[v] = true
+								changed = true
+							}
+						case *ssa.IndexAddr:
+							if base[x.X] {
+								elem[v] = true
+								changed = true
+							}
+						case *ssa.FieldAddr:
+							if elem[x.X] {
+								elem[v] = true
+								changed = true
+							}
+						}
+					}
+				}
+			}
+			// addresses derived from a
+			fromA := map[ssa.Value]bool{a: true}
+			for changed := true; changed; {
+				changed = false
+				for _, b := range fn.Blocks {
+					for _, in := range b.Instrs {
+						v, isVal := in.(ssa.Value)
+						if !isVal || fromA[v] {
+							continue
+						}
+						switch x := in.(type) {
+						case *ssa.FieldAddr:
+							if fromA[x.X] {
+								fromA[v] = true
+								changed = true
+							}
+						case *ssa.IndexAddr:
+							if fromA[x.X] {
+								fromA[v] = true
+								changed = true
+							}
+						}
+					}
+				}
+			}
+			var writes, reads []ssa.Instruction
+			for _, b := range fn.Blocks {
+				for _, in := range b.Instrs {
+					switch x := in.(type) {
+					case *ssa.Store:
+						if elem[x.Addr] {
+							writes = append(writes, in)
+						}
+					case *ssa.UnOp:
+						if x.Op == token.MUL && fromA[x.X] {
+							reads = append(reads, in)
+						}
+					case ssa.CallInstruction:
+						com := x.Common()
+						w, r := false, false
+						for _, arg := range com.Args {
+							if elem[arg] && (com.IsInvoke() || callMayWriteArg(fn, x, arg)) {
+								w = true
+							}
+							if fromA[arg] {
+								r = true
+							}
+						}
+						if w && r {
+							continue // one instruction: the callee is judged on its own (assembly: trusted to load first)
+						}
+						if w {
+							writes = append(writes, in)
+						}
+						if r {
+							reads = append(reads, in)
+						}
+					}
+				}
+			}
+			reported := false
+			for _, w := range writes {
+				for _, r := range reads {
+					if reported || w == r || !instrMayPrecede(fn, w, r) {
+						continue
+					}
+					reported = true
+					hits = append(hits, Finding{fn, r.Pos(), "element-alias(" + a.Name() + "," + s.Name() + ")",
+						fmt.Sprintf("%s: *%s is read (%s) after an element of %s may have been written (%s): when %s points at an element of %s the later reads see the updated value — take a copy of *%s before the first write, as the other code paths of this operation do",
+							funcKey(fn), a.Name(), p.Pos(r.Pos()), s.Name(), p.Pos(w.Pos()), a.Name(), s.Name(), a.Name())})
+				}
+			}
+		}
+	}
+	return n, hits
+}
